@@ -186,6 +186,11 @@ class Ctx:
     def begin(self, case):
         self.evaluations += 1
         self.cur = case
+        # optional probe installed by a check for the current case: fn(sig) -> label | None.  A label means the observed
+        # difference is explained by a rounding-dependent discrete choice INSIDE the code under test that the check
+        # measured (e.g. a mixture-of-experts gate whose k-th and (k+1)-th scores coincide within float32 rounding):
+        # the case is counted under dont_care:<label> and abandoned without verdict.  Never applied to crashes.
+        self.dontcare_probe = None
 
     def nontriv(self, key=None):
         self.nontrivial.add(h64(key if key is not None else self.cur))
@@ -210,6 +215,12 @@ class Ctx:
             if abort_known:
                 raise SkipCase()
             return False
+        probe = getattr(self, "dontcare_probe", None)
+        if probe is not None and not sig.startswith(("crash|", "hang|")):
+            lab = probe(sig)
+            if lab:
+                self.event(f"dont_care:{lab}")
+                raise SkipCase()
         payload = {
             "property": self.prop,
             "sub": self.sub,
